@@ -299,6 +299,13 @@ def jointFrames (s : Sys α) (x : List (Tf α)) : List (Tf α) :=
   (s.links.zip (parentIdx s.types s.parents)).map fun lp =>
     Tf.doTf (Tf.doTf (takeParent x Tf.id lp.2) lp.1.tf) lp.1.joint
 
+/-- the `cdof` rows of one link: local stack push (`cdof_fn`), rotation into the world frame by
+the joint frame `j` (`cdofWorld`), shift to the tree's centre of mass
+(`off = Transform.create(pos = root_com − j.pos)`, `off.do(cdof)`) -/
+def cdofLink (l : LinkIn α) (j : Tf α) (com : V3 α) : List (Motion α) :=
+  (cdofLocal l).map fun m =>
+    Tf.doMotion ⟨com - j.pos, Q4.one⟩ (cdofWorld (l.typ == .free) j.rot m)
+
 /-- `dynamics.transform_com(sys, state)` given the link world transforms `x` -/
 def transformCom (s : Sys α) (x : List (Tf α)) (q qd : List α) : ComState α :=
   let ins := linkSlices s.types q qd s.dofs
@@ -308,10 +315,7 @@ def transformCom (s : Sys α) (x : List (Tf α)) (q qd : List α) : ComState α 
     (xi.zip com) s.links
   let j := jointFrames s x
   -- dof axes: local stack push, world rotation, shift to the tree's centre of mass
-  let cdof := List.zipWith (fun (l : LinkIn α) (jc : Tf α × V3 α) =>
-      (cdofLocal l).map fun m =>
-        Tf.doMotion ⟨jc.2 - jc.1.pos, Q4.one⟩ (cdofWorld (l.typ == .free) jc.1.rot m))
-    ins (j.zip com)
+  let cdof := List.zipWith (fun (l : LinkIn α) (jc : Tf α × V3 α) => cdofLink l jc.1 jc.2) ins (j.zip com)
   let cdofQd := List.zipWith (fun cs (l : LinkIn α) => List.zipWith mulr cs l.qd) cdof ins
   let cd := scanFwd cdStep s.parents cdofQd
   let pidx := parentIdx s.types s.parents
